@@ -207,6 +207,14 @@ RunLogClauses(rl) ==
        <<"C15.distinct-ids", \A i, j \in DOMAIN rl : i # j => rl[i].id # rl[j].id>>,
        <<"C15.no-end-before-start", \A i \in DOMAIN rl : rl[i].end = -1 \/ rl[i].end >= rl[i].start>>,
        <<"C15.closed-item-has-end", \A i \in DOMAIN rl : rl[i].state \in {"completed", "failed", "cancelled"} => rl[i].end # -1>>,
+       \* the same statement on the flags the run-log message carries (it has no state field): a line shown as cancelled or failed
+       \* has ended and offers nothing
+       \* (every visit takes one tick between creating its item and acting - NodeVisitorGeneric.visit yields first - so the item of
+       \*  a visit to a line that was cancelled already is concluded one tick after it appears: judged from the second sample on)
+       <<"C15.cancelled-or-failed-line-is-closed",
+         LET Open(x) == (x.cancelled \/ x.failed) /\ ~(x.end # -1 /\ ~x.cancellable /\ ~x.forcible)
+             prl == IF "rl" \in DOMAIN p THEN p.rl ELSE <<>>
+         IN \A i \in DOMAIN rl : Open(rl[i]) => ~\E j \in DOMAIN prl : prl[j].id = rl[i].id /\ Open(prl[j])>>,
        <<"C15.closed-item-offers-nothing",
          \A i \in DOMAIN rl : rl[i].state \in {"completed", "failed", "cancelled"} => ~rl[i].cancellable /\ ~rl[i].forcible>> >>
 
